@@ -53,7 +53,7 @@ def covering_handlers(prog, f, pm, node):
     while anc is not None and anc is not f.node:
         if isinstance(anc, ast.Try) and any(cur is b for b in anc.body):
             for h in anc.handlers:
-                out.append((h, handler_names(prog, f.module, h)))
+                out.append((h, handler_names(prog, f.module, h, f.cls)))
         cur = anc
         anc = pm.get(anc)
     return out
@@ -83,29 +83,72 @@ def handler_denies(h):
     return True, ''
 
 
+def _is_membership(c, key_text, mapping_text):
+    return isinstance(c, ast.Compare) and len(c.ops) == 1 and isinstance(
+        c.ops[0], ast.In) and U(c.left) == key_text and U(
+            c.comparators[0]) == mapping_text
+
+
+def _is_absence(t, key_text, mapping_text):
+    """`key not in mapping` / `not (key in mapping)`"""
+    if isinstance(t, ast.Compare) and len(t.ops) == 1 and isinstance(
+            t.ops[0], ast.NotIn) and U(t.left) == key_text and U(
+                t.comparators[0]) == mapping_text:
+        return True
+    return isinstance(t, ast.UnaryOp) and isinstance(t.op, ast.Not) and \
+        _is_membership(t.operand, key_text, mapping_text)
+
+
 def dominated_by_membership(f, pm, node, key_text, mapping_text):
-    """Is node inside the true-branch of `key in mapping`?"""
+    """Is node reached only after `key in mapping` held?  Recognised: the
+    true-branch of the test (if / conditional expression / a later operand
+    of `and`), the false-branch of the absence test, and code after an
+    `if key not in mapping:` block that leaves."""
     cur = node
     anc = pm.get(node)
     while anc is not None:
         if isinstance(anc, ast.If) and any(cur is b for b in anc.body):
-            for c in ast.walk(anc.test):
-                if isinstance(c, ast.Compare) and len(c.ops) == 1 and \
-                        isinstance(c.ops[0], ast.In) and U(
-                            c.left) == key_text and U(
-                                c.comparators[0]) == mapping_text:
-                    # must be a conjunct, not under `not`/`or`
-                    t = anc.test
-                    if t is c or (isinstance(t, ast.BoolOp) and isinstance(
-                            t.op, ast.And) and any(v is c
-                                                   for v in t.values)):
-                        return True
-        if isinstance(anc, ast.IfExp) and cur is anc.body:
-            c = anc.test
-            if isinstance(c, ast.Compare) and isinstance(
-                    c.ops[0], ast.In) and U(c.left) == key_text and U(
-                        c.comparators[0]) == mapping_text:
+            t = anc.test
+            conj = t.values if isinstance(t, ast.BoolOp) and isinstance(
+                t.op, ast.And) else [t]
+            if any(_is_membership(v, key_text, mapping_text) for v in conj):
                 return True
+        if isinstance(anc, ast.If) and any(cur is b for b in anc.orelse) \
+                and _is_absence(anc.test, key_text, mapping_text):
+            return True
+        if isinstance(anc, ast.IfExp) and cur is anc.body and \
+                _is_membership(anc.test, key_text, mapping_text):
+            return True
+        if isinstance(anc, ast.IfExp) and cur is anc.orelse and \
+                _is_absence(anc.test, key_text, mapping_text):
+            return True
+        if isinstance(anc, ast.BoolOp) and isinstance(anc.op, ast.And):
+            idx = [i for i, v in enumerate(anc.values) if v is cur]
+            if idx and any(_is_membership(v, key_text, mapping_text)
+                           for v in anc.values[:idx[0]]):
+                return True
+        if isinstance(anc, ast.BoolOp) and isinstance(anc.op, ast.Or):
+            idx = [i for i, v in enumerate(anc.values) if v is cur]
+            if idx and any(_is_absence(v, key_text, mapping_text)
+                           for v in anc.values[:idx[0]]):
+                return True
+        # an earlier statement of an enclosing block leaves when absent
+        for fld in ('body', 'orelse', 'finalbody'):
+            blk = getattr(anc, fld, None)
+            if isinstance(blk, list) and any(cur is b for b in blk):
+                i = [k for k, b in enumerate(blk) if b is cur][0]
+                for st in blk[:i]:
+                    if isinstance(st, ast.If) and not st.orelse and \
+                            st.body and isinstance(
+                                st.body[-1], (ast.Return, ast.Raise,
+                                              ast.Continue, ast.Break)):
+                        t = st.test
+                        disj = t.values if isinstance(
+                            t, ast.BoolOp) and isinstance(t.op, ast.Or) \
+                            else [t]
+                        if any(_is_absence(v, key_text, mapping_text)
+                               for v in disj):
+                            return True
         cur = anc
         anc = pm.get(anc)
     return False
@@ -127,16 +170,118 @@ def _length_guarded(f, sub):
     return False
 
 
-def sites_of(prog, f, miss_raises):
+def protocol_params(prog, region):
+    """{function qual: names bound to the target / credentials mappings}:
+    the 2nd and 3rd parameter of every __call__, and helper parameters that
+    every call site in the region binds to such a name."""
+    proto = {}
+    for q, f in region.items():
+        prm = f.params
+        if f.name == '__call__' and len(prm) >= 4:
+            proto[q] = {prm[1], prm[2]}
+        else:
+            proto[q] = set()
+    changed = True
+    while changed:
+        changed = False
+        for q, g in region.items():
+            if g.name == '__call__':
+                continue
+            sites = []
+            for h in region.values():
+                for c in walk_no_nested(h.node):
+                    if isinstance(c, ast.Call) and prog.callee_of(h, c) is g:
+                        sites.append((h, c))
+            if not sites:
+                continue
+            gp = g.params
+            if g.cls is not None and not g.is_static:
+                gp = gp[1:]
+            for i, pn in enumerate(gp):
+                if pn in proto[q]:
+                    continue
+                ok = True
+                for h, c in sites:
+                    a = c.args[i] if i < len(c.args) else None
+                    for k in c.keywords:
+                        if k.arg == pn:
+                            a = k.value
+                    if not (isinstance(a, ast.Name) and a.id in proto[h.qual]):
+                        ok = False
+                if ok:
+                    proto[q].add(pn)
+                    changed = True
+    return proto
+
+
+STR_METHODS = ('lower', 'upper', 'casefold', 'split', 'strip', 'lstrip',
+               'rstrip', 'startswith', 'endswith', 'format', 'replace',
+               'encode', 'join', 'partition', 'rpartition', 'title')
+
+
+def returns_raw(prog, region, protos):
+    """Functions of the region that can return a raw element of a protocol
+    mapping (`target[...]`), not converted with str()."""
+    out = set()
+    for q, g in region.items():
+        pr = protos.get(q, set())
+        for n in walk_no_nested(g.node):
+            if isinstance(n, ast.Return) and isinstance(
+                    n.value, ast.Subscript) and isinstance(
+                        n.value.value, ast.Name) and n.value.value.id in pr:
+                out.add(q)
+    return out
+
+
+def raw_value_sites(prog, f, proto, raw_fns):
+    """String-method calls on a raw JSON value (a subscript of a protocol
+    mapping, or the result of a helper returning one)."""
+    raw = set()
+
+    def is_raw(e):
+        if isinstance(e, ast.Subscript) and isinstance(e.value, ast.Name) \
+                and e.value.id in proto and not isinstance(e.slice,
+                                                           ast.Slice):
+            return True
+        if isinstance(e, ast.Call):
+            g = prog.callee_of(f, e)
+            if g is not None and g.qual in raw_fns:
+                return True
+        return isinstance(e, ast.Name) and e.id in raw
+    changed = True
+    while changed:
+        changed = False
+        for n in walk_no_nested(f.node):
+            if isinstance(n, ast.Assign) and is_raw(n.value):
+                for t in n.targets:
+                    if isinstance(t, ast.Name) and t.id not in raw:
+                        raw.add(t.id)
+                        changed = True
+    out = []
+    for n in walk_no_nested(f.node):
+        if isinstance(n, ast.Call) and isinstance(n.func, ast.Attribute) \
+                and n.func.attr in STR_METHODS and is_raw(n.func.value):
+            out.append((n, 'string method on a JSON value %s' % U(n)[:50],
+                        {'builtin:AttributeError': ORDINARY}))
+    return out
+
+
+def sites_of(prog, f, miss_raises, proto=frozenset()):
     """[(node, description, {exc: class})] raising operation sites."""
     out = []
     prm = f.params
-    proto = set()
-    if f.name == '__call__' and len(prm) >= 4:
-        proto = {prm[1], prm[2]}          # target, creds
-    elif f.qual == CHECKS + '._check':
-        proto = set()
+    ann = set()
+    for a in ast.walk(f.node.args):
+        if isinstance(a, ast.arg) and a.annotation is not None:
+            ann |= {id(x) for x in ast.walk(a.annotation)}
+    if f.node.returns is not None:
+        ann |= {id(x) for x in ast.walk(f.node.returns)}
+    for a in walk_no_nested(f.node):
+        if isinstance(a, ast.AnnAssign):
+            ann |= {id(x) for x in ast.walk(a.annotation)}
     for n in walk_no_nested(f.node):
+        if id(n) in ann:
+            continue
         if isinstance(n, ast.BinOp) and isinstance(n.op, ast.Mod):
             lt = U(n.left)
             if 'self.match' in lt and not isinstance(n.left, ast.Constant):
@@ -200,9 +345,13 @@ def check(ctx):
             c = n.exc.func if isinstance(n.exc, ast.Call) else n.exc
             miss_raises.add(prog.resolve(miss.module, c))
     nsites = 0
+    protos = protocol_params(prog, region)
+    raw_fns = returns_raw(prog, region, protos)
     for q, f in sorted(region.items()):
         pm = parent_map(f.node)
-        for node, desc, may in sites_of(prog, f, miss_raises):
+        for node, desc, may in sites_of(
+                prog, f, miss_raises, protos.get(q, set())) + \
+                raw_value_sites(prog, f, protos.get(q, set()), raw_fns):
             nsites += 1
             hs = covering_handlers(prog, f, pm, node)
             # protocol-mapping subscripts: a membership guard removes KeyError
@@ -263,7 +412,7 @@ def check(ctx):
             ctx.ob('C14.COVER', ok, ctx.where(f.module, node), f.qual, desc,
                    detail, witness=None if ok else {
                        'uncaught': short(ordinary)})
-    ctx.floor('C14.COVER', nsites, 5, 'raising operation sites')
+    ctx.floor('C14.COVER', nsites, 3, 'raising operation sites')
     ctx.extra['region'] = sorted(region)
     # C14.SURFACE = C07.SURFACE
     from . import c07
